@@ -20,16 +20,13 @@ def interproc_guards(eng: Engine, fn: FuncInfo, node: ast.AST, depth: int = 3) -
     return out
 
 
-def run(eng: Engine, ck: Check):
+def child_list_rules(eng: Engine, ck: Check, rule: str):
+    """Who may shrink / re-bind the child list, and when (shared by C13 and C14:
+    a live child must stay in `children`, a closed one must leave it)."""
     repo = eng.repo
     dn = eng.cls(DN, DIST)
-    methods = list(dn.methods.values())
-
-    # ---- R-C13-ADMIT
-    apps = eng.mutations_of_attr('children', ['append', 'add', 'insert', 'extend'])
     rems = eng.mutations_of_attr('children', ['remove', 'pop', 'clear', 'discard'])
-    ck.floor('R-C13-ADMIT.append', len(apps), 1)
-    ck.floor('R-C13-ADMIT.remove', len(rems), 1)
+    sc = eng.func(DIST, f'{DN}._on_state_changed')
     for f, st, v in eng.stores_to_attr('children'):
         if f.cls is not dn:
             continue
@@ -43,9 +40,42 @@ def run(eng: Engine, ck: Check):
                 ok = len(conds) == 1 and isinstance(conds[0], ast.Compare) and isinstance(conds[0].ops[0], (ast.IsNot, ast.NotEq)) and \
                     isinstance(conds[0].left, ast.Name) and isinstance(tv, ast.Name) and conds[0].left.id == tv.id and \
                     isinstance(conds[0].comparators[0], ast.Name) and unparse(comp.elt) == tv.id
-        ck.ob('R-C13-ADMIT', f, st, 'the child list is re-bound only at construction (a rebuild may only drop the very peer object that closed)',
+        ck.ob(rule, f, st, 'the child list is re-bound only at construction (a rebuild may only drop the very peer object that closed)',
               ok, f'`{unparse(st)[:90]}` in {f.qualname}: removing by anything but object identity can drop a live child',
               construct=f'{f.qualname} rebinds children')
+    for f, call in rems:
+        ok = f.qualname == f'{DN}._remove_child' and call_name(call) == 'remove' and len(call.args) == 1 and unparse(call.args[0]) in f.params
+        ck.ob(rule, f, call, 'children shrink only in _remove_child, by removing the very peer object', ok,
+              f'`{unparse(call)}` in {f.qualname}', construct=f'{f.qualname} {call_name(call)} children')
+    sc = eng.func(DIST, f'{DN}._on_state_changed')
+    ck.visited(sc)
+    rc = calls_on(sc.node, '_remove_child')
+    ck.floor(rule + '.closed', len(rc), 1)
+    for call in rc:
+        gs = eng.guards_at(sc, call)
+        closed = any(pol and enum_members_in(e) == {'CLOSED'} and mentions_attr(e, 'state') for e, pol, _ in gs)
+        member = any(pol and (cmp_atom(e) or ('',))[0] == 'in' and mentions_attr(cmp_atom(e)[2], 'children') for e, pol, _ in gs)
+        other = [unparse(e) for e, pol, _ in gs if not (mentions_attr(e, 'state', 'children', 'connection_type') or call_name(e) == 'isinstance'
+                                                      or unparse(e) == 'peer')]
+        ck.ob(rule, sc, call, 'a child is removed when (and only because) its distributed connection reports CLOSED', closed and member and not other,
+              f'guards {[unparse(e) for e, _, _ in gs]}', construct='remove child on CLOSED')
+    # distributed_peers bookkeeping
+    dp_rm = [c for f, c in eng.mutations_of_attr('distributed_peers', ['remove']) if f is sc]
+    ck.ob(rule, sc, sc.node, 'a closed distributed connection is dropped from distributed_peers', len(dp_rm) == 1, '', construct='peer dropped on CLOSED')
+
+
+
+def run(eng: Engine, ck: Check):
+    repo = eng.repo
+    dn = eng.cls(DN, DIST)
+    methods = list(dn.methods.values())
+
+    # ---- R-C13-ADMIT
+    apps = eng.mutations_of_attr('children', ['append', 'add', 'insert', 'extend'])
+    rems = eng.mutations_of_attr('children', ['remove', 'pop', 'clear', 'discard'])
+    ck.floor('R-C13-ADMIT.append', len(apps), 1)
+    ck.floor('R-C13-ADMIT.remove', len(rems), 1)
+    child_list_rules(eng, ck, 'R-C13-ADMIT')
     for f, call in apps:
         ck.visited(f)
         gs = interproc_guards(eng, f, call)
@@ -75,26 +105,6 @@ def run(eng: Engine, ck: Check):
         s = c.suspension_between(c.entry, c.nodes_for(call)[0])
         ck.ob('R-C13-ADMIT', f, call, 'the append follows the admission tests without a suspension inside the appending function', s is None,
               f'suspension at line {s.lineno}' if s else '', construct='admit atomic')
-    for f, call in rems:
-        ok = f.qualname == f'{DN}._remove_child' and call_name(call) == 'remove' and len(call.args) == 1 and unparse(call.args[0]) in f.params
-        ck.ob('R-C13-ADMIT', f, call, 'children shrink only in _remove_child, by removing the very peer object', ok,
-              f'`{unparse(call)}` in {f.qualname}', construct=f'{f.qualname} {call_name(call)} children')
-    sc = eng.func(DIST, f'{DN}._on_state_changed')
-    ck.visited(sc)
-    rc = calls_on(sc.node, '_remove_child')
-    ck.floor('R-C13-ADMIT.closed', len(rc), 1)
-    for call in rc:
-        gs = eng.guards_at(sc, call)
-        closed = any(pol and enum_members_in(e) == {'CLOSED'} and mentions_attr(e, 'state') for e, pol, _ in gs)
-        member = any(pol and (cmp_atom(e) or ('',))[0] == 'in' and mentions_attr(cmp_atom(e)[2], 'children') for e, pol, _ in gs)
-        other = [unparse(e) for e, pol, _ in gs if not (mentions_attr(e, 'state', 'children', 'connection_type') or call_name(e) == 'isinstance'
-                                                      or unparse(e) == 'peer')]
-        ck.ob('R-C13-ADMIT', sc, call, 'a child is removed when (and only because) its distributed connection reports CLOSED', closed and member and not other,
-              f'guards {[unparse(e) for e, _, _ in gs]}', construct='remove child on CLOSED')
-    # distributed_peers bookkeeping
-    dp_rm = [c for f, c in eng.mutations_of_attr('distributed_peers', ['remove']) if f is sc]
-    ck.ob('R-C13-ADMIT', sc, sc.node, 'a closed distributed connection is dropped from distributed_peers', len(dp_rm) == 1, '', construct='peer dropped on CLOSED')
-
     # ---- R-C13-CACHE: potential parents accumulate (bounded deque), never replaced
     for f, st, v in eng.stores_to_attr('potential_parents'):
         if f.cls is not dn:
@@ -113,6 +123,7 @@ def run(eng: Engine, ck: Check):
         ck.ob('R-C13-CACHE', f, call, 'entries leave the cache only through the deque bound', False, unparse(call), construct=f'{f.qualname} shrinks cache')
 
     # ---- R-C13-PARENT
+    sc = eng.func(DIST, f'{DN}._on_state_changed')
     pst = [(f, st, v) for f, st, v in eng.stores_to_attr('parent') if f.cls is dn]
     ck.floor('R-C13-PARENT', len(pst), 3)
     for f, st, v in pst:
